@@ -37,7 +37,7 @@ MULTI = ['a,b', 'a-b', 'b', 'a', '', 'a,,b', '{}', 'x-{}', '{},a', 'é,a', 'a,é
 # tokens that mean something else when read as a pattern (regex / glob / substring), next to the tokens such a pattern would match
 MULTI_META = ['1.5', '115', '1.5,115', 'a.c,abc', 'abc', 'a.c', 'x+', 'xx', 'x+,y', 'a|b', 'ab', '(', '(,)', 'a*', 'aa', 'a*-aa',
               '[z]', 'z', '^a', '$', 'a$', '\\d', '7', '\\d,7', 'A', 'a', 'aa,a', 'a?', '.', '.,q', 'q']
-SEL = ['', 'x', 'y', 'z', 'x&y', 'AND', 'x', 'é', '1', '11']
+SEL = ['', 'x', 'y', 'z', 'x&y', 'y&z', 'AND', 'x', 'é', '1', '11', 'x&', '&y']       # '&' joins the two values in a sub-feature's name
 NUM = ['0', '1', '2.5', '3', '10', '0.5', '7', '100', '', '1_0', '0.05655136772680869', '"4"', '1e2', ' 6 ']
 RANDOM_CONTROLS = ['CONTROL-gaussian', 'CONTROL-uniform', 'CONTROL-random-binary', 'CONTROL-random-card100',
                    'CONTROL-random-card2k', 'CONTROL-random-card10k', 'CONTROL-random-card50k', 'CONTROL-volume']
